@@ -9,6 +9,8 @@ from . import products as P
 
 PROP = "C06"
 MODES = ("intact", "nocursor", "badcursor")
+# schedules tried after the restart (intact mode): fair round robin, and sync loop first (events taken in late)
+RESTART_ORDERS = (("IL", "IR", "S"), ("S", "S", "IL", "IR"))
 
 
 class D(Driver):
@@ -73,7 +75,7 @@ def run_job(job):
     if not base["converged"] or base["lost"]:
         return _result(job, 1, len(hist), 1, {}, "base-fails (see C01/C02)", hist)
     for i in range(len(hist) + 1):
-        for mode in MODES:
+        for mode, order in [(m, o) for m in MODES for o in (RESTART_ORDERS if m == "intact" else RESTART_ORDERS[:1])]:
             w = drv.make_world(job)
             try:
                 for a in hist[:i]:
@@ -86,7 +88,7 @@ def run_job(job):
                 n_eval += 1
                 bad = None
                 try:
-                    w.settle(limit=150)
+                    w.settle(limit=150, order=order)
                 except NoQuiescence:
                     bad = ("noquiesce", {})
                 if bad is None:
